@@ -36,6 +36,7 @@ DIMPOOL = {
     # the first and the last year that an unnamed integer index may hold to be taken for years (1700 .. 2300)
     "Y": dict(letter="t", name="time", items=[1700, 2000, 2300], dtype="int"),
     "A": dict(letter="a", name="age", items=[0, 1, 2], dtype="int"),       # small integers: values can coincide with items
+    "Z": dict(letter="z", name="zero class", items=[0], dtype="int"),     # a single item that is at the same time a plausible value
 }
 
 
